@@ -64,6 +64,8 @@ type Gen struct {
 	frameNow0    string
 	frameN       int
 	cur          *Frame
+	verBound     map[string]string
+	nextBound    string
 	regions     []knownFinding
 	regionTerms map[string]string
 }
@@ -71,7 +73,7 @@ type Gen struct {
 func newGen(w *World, specs *Specs, contracts map[string]*Contract) *Gen {
 	return &Gen{w: w, d: newDecls(), specs: specs, contracts: contracts,
 		compSort: map[string]string{}, declared: map[string]bool{}, trusted: map[string]bool{},
-		inlined: map[string]bool{}, havocked: map[string]bool{}, maxInline: 7}
+		inlined: map[string]bool{}, havocked: map[string]bool{}, maxInline: 7, verBound: map[string]string{}}
 }
 
 func (g *Gen) fresh(base string) string {
@@ -176,6 +178,22 @@ func (g *Gen) get(s *State, comp string) string {
 func (g *Gen) set(s *State, comp, term string) {
 	v := g.defFresh(comp, g.compSort[comp], term)
 	s.comp[comp] = v
+	if comp != nowComp {
+		g.verBound[v] = g.now(s)
+	}
+}
+
+// boundOf: every reference stored in the current version of comp is at most this allocation counter.
+func (g *Gen) boundOf(st *State, comp string) string {
+	v := g.get(st, comp)
+	if b, ok := g.verBound[v]; ok {
+		return b
+	}
+	if i := strings.LastIndex(v, "@"); i >= 0 && v[:i] == comp {
+		g.compDecl(nowComp, "Int")
+		return g.get(&State{comp: map[string]string{}, base: v[i+1:]}, nowComp)
+	}
+	return g.now(st)
 }
 
 func (g *Gen) fieldComp(st types.Type, idx int) (comp string, fsort string, ftype types.Type) {
@@ -408,6 +426,18 @@ func (g *Gen) mergeStates(ens []string, sts []*State) *State {
 			t = fmt.Sprintf("(ite %s %s %s)", ens[i], vals[i], t)
 		}
 		out.comp[k] = g.defFresh(k, g.compSort[k], t)
+	}
+	if len(g.compSort) > 0 {
+		if _, ok := g.compSort[nowComp]; ok {
+			n := g.now(out)
+			for _, k := range ks {
+				if k != nowComp {
+					if _, has := g.verBound[out.comp[k]]; !has {
+						g.verBound[out.comp[k]] = n
+					}
+				}
+			}
+		}
 	}
 	return out
 }
